@@ -74,7 +74,7 @@ pub fn byte_iters(r: &mut Runner) {
     // (1) exhaustive histories on short haystacks
     let lmax = match r.tier {
         Tier::Miri => 4,
-        Tier::Quick => 9,
+        Tier::Quick => 10,
         Tier::Thorough => 12,
     };
     for len in 0..=lmax {
@@ -94,7 +94,7 @@ pub fn byte_iters(r: &mut Runner) {
             let place = [Place::GuardR, Place::GuardL, Place::Heap, Place::Arena(5)][(unit % 4) as usize];
             for &api in &apis {
                 // rotate APIs over subsets in the quick tier to bound cost
-                if r.tier != Tier::Thorough && (unit + api.code()) % 3 != 0 && len > 6 {
+                if r.tier != Tier::Thorough && (unit + api.code()) % 2 != 0 && len > 7 {
                     continue;
                 }
                 let nset = NEEDLE_SETS[((unit / 3 + api.code()) % NEEDLE_SETS.len() as u64) as usize];
@@ -465,7 +465,7 @@ pub fn purity(r: &mut Runner) {
     let mut unit = 0u64;
     let reps = match lvl {
         0 => 1,
-        1 => 1,
+        1 => 2,
         _ => 4,
     };
     for ndl in &needles {
